@@ -613,3 +613,214 @@ def c13_7(run):
     if not n_ok:
         raise Inconclusive('vacuity: no accepting path')
     run.require_reached(*run.cur.reach)
+
+
+# ----------------------------------------------------------------------------------------------------------------- C13-8
+@obligation('C13', 'C13-8 clean_account_stale_expired: exactly the used nonces are removed (included / stale), an expired first transaction takes every later one with it, everything else stays; each removal is reported with its reason')
+def c13_8(run):
+    def h_expired(ctx):
+        t = ctx.ex.deref_val(ctx.st, ctx.args[0])
+        return [(None, z3.Bool(f'expired_{t.attrs["tag"]}'))]
+    hooks = [(re.compile(r'^(mempool::transactions_container::)?TimemarkedTransaction::is_expired$'), h_expired),
+             (re.compile(r'^(tokio::time::|std::time::)?Instant::now$'), lambda ctx: [(None, z3.BitVec('now', 96))]),
+             (re.compile(r'^<Arc<.*ExecTxResult> as Clone>::clone$'), lambda ctx: [(None, ctx.ex.deref_val(ctx.st, ctx.args[0]))]),
+             (re.compile(r'^(mempool::transactions_container::)?TimemarkedTransaction::address_bytes$'), lambda ctx: [(None, B.cell(ctx.ex.deref_val(ctx.st, ctx.args[0]).attrs['addr']))])]
+    ex = engine(hooks=hooks)
+    f = ex.find(r'^(mempool::transactions_container::)?TransactionsContainer::clean_account_stale_expired$')
+    a_rr = ex.adts.lookup('RemovalReason'); rr = {v['name']: i for i, v in enumerate(a_rr['variants'])}
+    run.bound(account='0..3 transactions of the cleaned account (nonces strictly increasing), one other account', included='0..1 transaction ids reported as included in the block', expiry='TimemarkedTransaction::is_expired is an oracle per transaction',
+              instantiation='Self = PendingTransactions (the default trait method is shared with ParkedTransactions)')
+    n = 0
+    for k in (0, 1, 2, 3):
+        for ninc in (0, 1):
+            addr, other = z3.BitVec('account', 160), z3.BitVec('other_account', 160)
+            olds = [mk_ttx(ex, f't{j}') for j in range(k)]
+            for o in olds: o[0].attrs['addr'] = addr
+            oth = mk_ttx(ex, 'other'); oth[0].attrs['addr'] = other
+            mine = B.struct(ex, 'PendingTransactionsForAccount', txs=M.new_map('BTreeMap<u32, TimemarkedTransaction>', [(n_, t) for t, n_, _, _ in olds]))
+            theirs = B.struct(ex, 'PendingTransactionsForAccount', txs=M.new_map('BTreeMap<u32, TimemarkedTransaction>', [(oth[1], oth[0])]))
+            entries = ([(addr, mine)] if k else []) + [(other, theirs)]
+            cont = B.struct(ex, 'PendingTransactions', txs=M.new_map('HashMap<[u8; 20], PendingTransactionsForAccount>', entries), tx_ttl=z3.BitVec('ttl', 96))
+            inc_ids = [z3.BitVec(f'included_id{j}', 256) for j in range(ninc)]
+            included = M.new_map('HashMap<TransactionId, Arc<ExecTxResult>>', [(i_, Obj('Arc<ExecTxResult>', kind='arc')) for i_ in inc_ids])
+            cur = z3.BitVec('current_nonce', 32)
+            st = ex.start(f, [B.cell(cont), B.cell(addr), cur, B.cell(included), z3.BitVec('block_height', 64)])
+            st.pc += [z3.ULT(olds[j][1], olds[j + 1][1]) for j in range(k - 1)] + [addr != other]
+            ids = [o[3] for o in olds]
+            st.pc += [ids[a] != ids[b] for a in range(k) for b in range(a + 1, k)]
+            for i, p in enumerate(run.explore(ex, st, allow_havoc=(r'^Arguments::|fmt::',))):
+                lab = f'[{k} txs, {ninc} included ids, path {i}]'
+                if p.kind != 'return':
+                    run.prove(f'no panic {lab}', p.pc, z3.BoolVal(False), detail=p.info); continue
+                n += 1
+                post = outer_view(ex, p, ex.read(p, p.roots['args'][0].loc))
+                kept = [tags for kk, tags in post if 't0' in tags or 't1' in tags or 't2' in tags]
+                kept = kept[0] if kept else []
+                others_ok = any(tags == ['other'] for _, tags in post) and len(post) == (2 if kept else 1)
+                removed = []
+                for x in ex.deref_val(p, p.result).attrs['items']:
+                    x = ex.deref_val(p, x)
+                    idv, reason = (x if isinstance(x, tuple) else (x.fields[(None, 0)], x.fields[(None, 1)]))
+                    reason = ex.deref_val(p, reason)
+                    removed.append((ex.deref_val(p, idv), reason.discr if isinstance(reason.discr, str) else None))
+                run.sample({'txs': k, 'included': ninc, 'path': i, 'kept': kept, 'removed': [r for _, r in removed]})
+                order = [f't{j}' for j in range(k)]
+                # kept must be a contiguous suffix-start: stale prefix removed; possibly everything removed by expiry
+                claim = [z3.BoolVal(others_ok)]
+                js = len(order) - len(kept) if kept else None
+                if kept:
+                    s_ = k - len(kept)
+                    claim.append(z3.BoolVal(kept == order[s_:] and len(removed) == s_))
+                    claim += [z3.ULT(olds[j][1], cur) for j in range(s_)] + [z3.UGE(olds[s_][1], cur), z3.Not(z3.Bool(f'expired_t{s_}'))]
+                    for j in range(s_):
+                        inc = z3.Or(*[ids[j] == x for x in inc_ids]) if inc_ids else z3.BoolVal(False)
+                        claim += [removed[j][0] == ids[j], z3.If(inc, z3.BoolVal(removed[j][1] == 'IncludedInBlock'), z3.BoolVal(removed[j][1] == 'NonceStale'))]
+                else:
+                    claim.append(z3.BoolVal(len(removed) == k))
+                    if len(removed) == k:
+                        # some prefix is stale, the rest (if any) went with an expired first transaction
+                        alts = []
+                        for s_ in range(k + 1):
+                            c_ = [z3.ULT(olds[j][1], cur) for j in range(s_)]
+                            for j in range(s_):
+                                inc = z3.Or(*[ids[j] == x for x in inc_ids]) if inc_ids else z3.BoolVal(False)
+                                c_ += [removed[j][0] == ids[j], z3.If(inc, z3.BoolVal(removed[j][1] == 'IncludedInBlock'), z3.BoolVal(removed[j][1] == 'NonceStale'))]
+                            if s_ < k:
+                                c_ += [z3.UGE(olds[s_][1], cur), z3.Bool(f'expired_t{s_}'), removed[s_][0] == ids[s_], z3.BoolVal(removed[s_][1] == 'Expired')]
+                                c_ += [z3.And(removed[j][0] == ids[j], z3.BoolVal(removed[j][1] == 'LowerNonceInvalidated')) for j in range(s_ + 1, k)]
+                            alts.append(z3.And(*c_) if c_ else z3.BoolVal(True))
+                        claim.append(z3.Or(*alts))
+                run.prove(f'removed = the used nonces (reason included / stale) plus, if the first remaining transaction expired, it (Expired) and all later ones (LowerNonceInvalidated); the rest is kept in order; other accounts untouched {lab}',
+                          p.pc, z3.And(*claim))
+    if not n:
+        raise Inconclusive('vacuity')
+    run.require_reached(*run.cur.reach)
+
+
+# ----------------------------------------------------------------------------------------------------------------- C13-9
+@obligation('C13', 'C13-9 TransactionsContainer::remove: removes the transaction at that nonce and every higher nonce of the account, reports exactly their ids, keeps lower nonces and other accounts; unknown account / nonce => nothing changes')
+def c13_9(run):
+    def h_addr(ctx):
+        t = ctx.ex.deref_val(ctx.st, ctx.args[0])
+        if isinstance(t, Obj) and t.kind == 'arc':
+            t = ctx.ex.deref_val(ctx.st, t.fields[('in', 0)])
+        return [(None, B.cell(t.attrs['addr']))]
+    hooks = [(re.compile(r'^(mempool::transactions_container::)?TimemarkedTransaction::address_bytes$|CheckedTransaction as ([\w:]+::)?AddressBytes>::address_bytes$|^(checked_transaction::)?CheckedTransaction::address_bytes$'), h_addr)]
+    ex = engine(hooks=hooks)
+    f = ex.find(r'^(mempool::transactions_container::)?TransactionsContainer::remove$')
+    run.bound(account='0..3 transactions (nonces strictly increasing) of the account, one other account', target='arbitrary transaction: signer equal to the account or not, arbitrary nonce',
+              instantiation='Self = PendingTransactions (default trait method shared with ParkedTransactions)')
+    seen = set()
+    for k in (0, 1, 2, 3):
+        addr, other = z3.BitVec('account', 160), z3.BitVec('other_account', 160)
+        olds = [mk_ttx(ex, f't{j}') for j in range(k)]
+        for o in olds: o[0].attrs['addr'] = addr
+        oth = mk_ttx(ex, 'other'); oth[0].attrs['addr'] = other
+        mine = B.struct(ex, 'PendingTransactionsForAccount', txs=M.new_map('BTreeMap<u32, TimemarkedTransaction>', [(n_, t) for t, n_, _, _ in olds]))
+        theirs = B.struct(ex, 'PendingTransactionsForAccount', txs=M.new_map('BTreeMap<u32, TimemarkedTransaction>', [(oth[1], oth[0])]))
+        entries = ([(addr, mine)] if k else []) + [(other, theirs)]
+        cont = B.struct(ex, 'PendingTransactions', txs=M.new_map('HashMap<[u8; 20], PendingTransactionsForAccount>', entries), tx_ttl=z3.BitVec('ttl', 96))
+        tgt, tn, _, tid = mk_ttx(ex, 'target')
+        arc = tgt.fields[(None, ex.adts.lookup('TimemarkedTransaction')['fields'].index('checked_tx'))]
+        signer = z3.BitVec('target_signer', 160)
+        ex.deref_val(None, arc) if False else None
+        inner_tx = arc.fields[('in', 0)]; inner_tx.attrs['addr'] = signer
+        st = ex.start(f, [B.cell(cont), arc])
+        st.pc += [z3.ULT(olds[j][1], olds[j + 1][1]) for j in range(k - 1)] + [addr != other, signer != other]
+        ids = [o[3] for o in olds]
+        for i, p in enumerate(run.explore(ex, st, allow_havoc=(r'^Arguments::|fmt::',))):
+            lab = f'[{k} txs, path {i}]'
+            if p.kind != 'return':
+                run.prove(f'no panic {lab}', p.pc, z3.BoolVal(False), detail=p.info); continue
+            post = outer_view(ex, p, ex.read(p, p.roots['args'][0].loc))
+            kept = [tags for kk, tags in post if any(t.startswith('t') and t != 'other' for t in tags)]
+            kept = kept[0] if kept else []
+            others_ok = any(tags == ['other'] for _, tags in post) and len(post) == (2 if kept else 1)
+            res = p.result.discr; seen.add(res)
+            order = [f't{j}' for j in range(k)]
+            run.sample({'txs': k, 'path': i, 'result': res, 'kept': kept})
+            if res == 'Ok':
+                got = [ex.deref_val(p, x) for x in ex.deref_val(p, p.result.fields[('Ok', 0)]).attrs['items']]
+                s_ = len(kept)
+                run.prove(f'removed = the transaction at the target nonce and all higher nonces, ids reported in nonce order; lower nonces and other accounts kept {lab}', p.pc,
+                          z3.And(z3.BoolVal(others_ok and kept == order[:s_] and len(got) == k - s_ and s_ < k), signer == addr, olds[s_][1] == tn if s_ < k else z3.BoolVal(False),
+                                 *[got[j - s_] == ids[j] for j in range(s_, k) if len(got) == k - s_]))
+            else:
+                run.prove(f'not found => account unknown or no transaction at that nonce; container unchanged {lab}', p.pc,
+                          z3.And(z3.BoolVal(others_ok and kept == order), z3.Or(signer != addr, z3.BoolVal(k == 0), *[z3.BoolVal(True)] if False else [z3.And(*[o[1] != tn for o in olds])])))
+    if seen != {'Ok', 'Err'}:
+        raise Inconclusive(f'vacuity: outcomes {seen}')
+    run.require_reached(*run.cur.reach)
+
+
+# ----------------------------------------------------------------------------------------------------------------- C13-10
+@obligation('C13', 'C13-10 remove_tx_invalid accounting: every transaction removed from ready / parked is untracked and reported with a reason (the failing one with the given reason); nothing else changes')
+def c13_10(run):
+    n_removed = 0
+    for shape in [(0, 0, 0), (1, 0, 0), (2, 1, 0), (1, 2, 0), (0, 0, 1), (0, 0, 2)]:
+        npend, nclear, npark = shape
+        pend_ids = [z3.BitVec(f'pending_removed{j}', 256) for j in range(npend)]
+        clear_ids = [z3.BitVec(f'parked_cleared{j}', 256) for j in range(nclear)]
+        park_ids = [z3.BitVec(f'parked_removed{j}', 256) for j in range(npark)]
+
+        def h_remove(ctx):
+            which = 'pending' if 'PendingTransactions as' in ctx.callee else 'parked'
+            ids_ = pend_ids if which == 'pending' else park_ids
+            ctx.st.log.append(('remove', which))
+            tx = ctx.args[1]
+            if ids_:
+                return [(None, ok(M.new_vec('Vec<TransactionId>', list(ids_))))]
+            return [(None, err(tx))]
+
+        def h_clear(ctx):
+            ctx.st.log.append(('clear_account', 'parked'))
+            return [(None, M.new_vec('Vec<TransactionId>', list(clear_ids)))]
+
+        def h_removal_add(ctx):
+            idv = ctx.ex.deref_val(ctx.st, ctx.args[1]); r = ctx.ex.deref_val(ctx.st, ctx.args[2])
+            ctx.st.log.append(('removal', idv, r.attrs.get('tag') if isinstance(r, Obj) else None, r.discr if isinstance(r, Obj) else None))
+            return [(None, ())]
+        hooks = [(re.compile(r'as TransactionsContainer<.*>>::remove$'), h_remove), (re.compile(r'as TransactionsContainer<.*>>::clear_account$'), h_clear),
+                 (re.compile(r'^(mempool::)?RemovalCache::add$'), h_removal_add),
+                 (re.compile(r'CheckedTransaction as ([\w:]+::)?AddressBytes>::address_bytes$|^(checked_transaction::)?CheckedTransaction::address_bytes$'), lambda ctx: [(None, B.cell(z3.BitVec('signer', 160)))])]
+        ex, W = A.engine(extra_hooks=hooks)
+        f = _impl_fn(ex, 'remove_tx_invalid', 'MempoolInner')
+        tgt, tn, _, tid = mk_ttx(ex, 'target')
+        arc = tgt.fields[(None, ex.adts.lookup('TimemarkedTransaction')['fields'].index('checked_tx'))]
+        other = z3.BitVec('other_id', 256)
+        all_ids = pend_ids + clear_ids + park_ids + [other]
+        contained = M.new_map('HashSet<TransactionId>', [(i_, ()) for i_ in all_ids])
+        inner = B.struct(ex, 'MempoolInner', pending=Obj('PendingTransactions', kind='opaque'), parked=Obj('ParkedTransactions', kind='opaque'), comet_bft_removal_cache=Obj('RemovalCache', kind='opaque'),
+                         recent_execution_results=Obj('RecentExecutionResults', kind='opaque'), contained_txs=contained, metrics=B.cell(Obj('Metrics', kind='opaque')))
+        reason = Obj('mempool::RemovalReason'); reason.discr = 'FailedExecution'; reason.attrs['tag'] = 'given-reason'
+        st = ex.start(f, [B.cell(inner), arc, reason])
+        st.pc += [all_ids[a] != all_ids[b] for a in range(len(all_ids)) for b in range(a + 1, len(all_ids))]
+        # the failing transaction is the one the containers found at its nonce (first removed id), when something was found
+        first = (pend_ids or park_ids)
+        if first:
+            st.pc.append(first[0] == tid)
+        for i, p in enumerate(run.explore(ex, st, allow_havoc=(r'^Arguments::|fmt::',))):
+            lab = f'[pending {npend}, parked cleared {nclear}, parked removed {npark}, path {i}]'
+            if p.kind != 'return':
+                run.prove(f'no panic {lab}', p.pc, z3.BoolVal(False), detail=p.info); continue
+            post = B.fld(ex, p, ex.read(p, p.roots['args'][0].loc), 'contained_txs', 'HashSet')
+            post_ids = [k_ for k_, _ in post.attrs['items']]
+            removals = [e for e in p.log if e[0] == 'removal']
+            tracked = lambda x: z3.Or(*[x == y for y in post_ids]) if post_ids else z3.BoolVal(False)
+            reported = lambda x: z3.Or(*[x == e[1] for e in removals]) if removals else z3.BoolVal(False)
+            gone = pend_ids + (clear_ids if pend_ids else []) + (park_ids if not pend_ids else [])
+            run.sample({'shape': list(shape), 'path': i, 'removals': len(removals), 'tracked_after': len(post_ids)})
+            claim = [tracked(other), z3.Not(reported(other))]
+            for g in gone:
+                n_removed += 1
+                claim += [z3.Not(tracked(g)), reported(g)]
+            if gone:
+                claim += [removals[0][1] == tid, z3.BoolVal(removals[0][2] == 'given-reason')] if removals else [z3.BoolVal(False)]
+            else:
+                claim += [z3.BoolVal(not removals)] + [tracked(x) for x in all_ids]
+            if pend_ids:
+                claim.append(z3.BoolVal(any(e[0] == 'clear_account' for e in p.log)))       # parked transactions of the account sit behind the removed nonce: all cleared
+            run.prove(f'every id handed back by the containers is untracked and reported; the failing transaction first, with the given reason; untouched ids stay tracked {lab}', p.pc, z3.And(*claim))
+    if not n_removed:
+        raise Inconclusive('vacuity')
+    run.require_reached(*run.cur.reach)
